@@ -24,6 +24,7 @@ func runC19(p *Prog, r *Report) {
 	c19R4(p, r)
 	c19R5(p, r)
 	c19R6(p, r)
+	c19R7(p, r)
 }
 
 var c19ProbeFuncs = []string{"probeAvailability", "probeLatency", "probeMinMaxLatency"}
@@ -1375,4 +1376,47 @@ func c19IsTickerArg(fc *FuncCtx, field string) bool {
 		}
 	}
 	return false
+}
+
+// c19R7: each policy's constructor starts that policy's probing loop. The group constructors of
+// the two probe configurations (TCP and UDP) are siblings: new<Policy>ClientGroup hands
+// newAtomicClientGroup a start function whose goroutine runs the selector's probe<Policy>; the
+// two siblings agree, and the name of the probing method is the policy of the constructor.
+func c19R7(p *Prog, r *Report) {
+	const rule = "C19-R7"
+	r.Rule(rule, "policy wiring: for both probe configurations, new<Policy>ClientGroup starts exactly one probing goroutine and it runs atomicClientSelector.probe<Policy> (availability, latency, min-max latency); the TCP and UDP siblings start the same method for the same policy")
+	started := map[string]map[string]string{} // policy -> config type -> probing method
+	for _, tn := range []string{"TCPConnectivityProbeConfig", "UDPConnectivityProbeConfig"} {
+		for _, pol := range []string{"Availability", "Latency", "MinMaxLatency"} {
+			fc := p.LookupFunc("clientgroups", tn, "new"+pol+"ClientGroup")
+			if fc == nil {
+				r.Fail(rule, "clientgroups.(*"+tn+").new"+pol+"ClientGroup:exists", "", "constructor not found")
+				continue
+			}
+			var methods []string
+			for _, ctx := range allCtxs(p, fc) {
+				for _, v := range ctx.G.V {
+					gs, ok := v.Node.(*ast.GoStmt)
+					if !ok {
+						continue
+					}
+					if fn := Callee(ctx.Info(), gs.Call); fn != nil && namedTypeName(recvTypeOf(fn)) == "atomicClientSelector" {
+						methods = append(methods, fn.Name())
+					}
+				}
+			}
+			construct := "clientgroups.(*" + tn + ").new" + pol + "ClientGroup:starts-probe" + pol
+			r.Check(len(methods) == 1 && methods[0] == "probe"+pol, rule, construct, p.posStr(fc.Body.Pos()), "starts probe"+pol, fmt.Sprintf("the %s group of %s starts %v instead of probe%s: clients are ranked by another policy's statistic than the one configured", pol, tn, methods, pol))
+			if started[pol] == nil {
+				started[pol] = map[string]string{}
+			}
+			if len(methods) == 1 {
+				started[pol][tn] = methods[0]
+			}
+		}
+	}
+	for pol, m := range started {
+		r.Check(len(m) == 2 && m["TCPConnectivityProbeConfig"] == m["UDPConnectivityProbeConfig"], rule, "clientgroups:siblings-agree:"+pol, "clientgroups/probe.go", "TCP and UDP start the same probing method", fmt.Sprintf("the TCP and UDP constructors of the %s policy start different probing methods: %v", pol, m))
+	}
+	r.Floor(rule, 6)
 }
